@@ -108,7 +108,9 @@ def _build(ctx: F.Ctx):
     a1 = list(_lists(base + [("grp", 1), ("grp", 2)], p["len_g1"]))
     # ordinary path arguments are left untouched, also when they look like member patterns
     arg_alpha = [("grp", 0), ("grp", 1), ("grp", 2), ("path", argf[0]), ("path", argf[1]),
-                 ("path", "{yyyymmdd[0]}_lit.zo"), ("path", "t_{{x}}.zo")]
+                 ("path", "{yyyymmdd[0]}_lit.zo"), ("path", "t_{{x}}.zo"),
+                 # an ordinary path whose text is also the name of a group (the page g2.zo, not @g2)
+                 ("path", names[1])]
     ordinary = H.rotate(_ORDINARY, ctx.seed)[0]
     return base, names, argf, p, a1, a2, a3, arg_alpha, ordinary
 
